@@ -250,22 +250,19 @@ Fixpoint split_at_dot (cur : string) (s : string) : option (string * string) :=
   end.
 
 (* float(text) on  blanks ['-'] digits '.' digit digit blanks ;  the value in hundredths *)
-Definition parse_dec2 (s : string) : option Z :=
-  let s1 := lstrip s in
-  let ns := match s1 with
-            | String c r => if Ascii.eqb c "-"%char then (true, r) else (false, s1)
-            | EmptyString => (false, s1)
-            end in
-  match split_at_dot EmptyString (snd ns) with
+Definition parse_udec2 (s : string) : option Z :=
+  match split_at_dot EmptyString s with
   | Some (ip, String d1 (String d2 rest)) =>
       match parse_N ip, digit_val d1, digit_val d2 with
-      | Some a, Some x, Some y =>
-          if all_ws rest
-          then let z := 100 * Z.of_N a + 10 * x + y in Some (if fst ns then - z else z)
-          else None
+      | Some a, Some x, Some y => if all_ws rest then Some (100 * Z.of_N a + 10 * x + y) else None
       | _, _, _ => None
       end
   | _ => None
+  end.
+Definition parse_dec2 (s : string) : option Z :=
+  match lstrip s with
+  | String c r => if Ascii.eqb c "-"%char then option_map Z.opp (parse_udec2 r) else parse_udec2 (String c r)
+  | EmptyString => None
   end.
 
 (* ---------- load_matrix on lines ---------- *)
@@ -352,17 +349,49 @@ Definition load_text (cc : ascii) (lines : list string) : result loaded :=
 (* load_ising_matrix uses '#', load_qubo_matrix 'c' *)
 Definition comment_char (ising : bool) : ascii := if ising then "#"%char else "c"%char.
 
+(* ---------- bytes ---------- *)
+Definition nl : ascii := "010"%char.
+(* "".join(contents): every piece but the first starts with a newline; no newline at the end *)
+Fixpoint join_lines (ls : list string) : string :=
+  match ls with
+  | [] => EmptyString
+  | [l] => l
+  | l :: rest => (l ++ String nl (join_lines rest))%string
+  end.
+(* f.readlines(): the text is cut after every newline, which stays at the end of its line
+   (only "\n" is modelled as a line end; export writes no other) *)
+Fixpoint read_lines_aux (cur : string) (s : string) : list string :=
+  match s with
+  | EmptyString => match cur with EmptyString => [] | _ => [cur] end
+  | String c s' =>
+      if Ascii.eqb c nl then (cur ++ String nl EmptyString)%string :: read_lines_aux EmptyString s'
+      else read_lines_aux (cur ++ String c EmptyString)%string s'
+  end.
+Definition read_lines (s : string) : list string := read_lines_aux EmptyString s.
+
+(* the bytes export writes (ts = the text of the timestamp comment after its '#') *)
+Definition export_bytes (ts : string) (p : problem) : string := join_lines (String "#" ts :: export_text p).
+(* load_matrix on the bytes of a file *)
+Definition load_bytes (cc : ascii) (bytes : string) : result loaded := load_text cc (read_lines bytes).
+
 (* ---------- correspondence, text level ---------- *)
-(* the lines of the written file after the timestamp line, and the loader's result on the file *)
-Definition tcase := (bool * nat * list (list Q) * list Q * Q * list string * (nat * list (list Z) * Z))%type.
+(* ts: the first line of the written file after its '#'; raw: all bytes of the file; lines: the
+   lines after the first one; and the loader's result on the file *)
+Definition tcase :=
+  (bool * nat * list (list Q) * list Q * Q * string * string * list string * (nat * list (list Z) * Z))%type.
+
+Definition loaded_eqb (r : result loaded) (lm : nat) (lM : list (list Z)) (lk : Z) : bool :=
+  match r with
+  | Ok (m, M, k') => Nat.eqb m lm && zrows_eqb (dense_of lm M) lM && (k' =? lk)
+  | Err _ => false
+  end.
 
 Definition check_tcase (c : tcase) : list nat :=
   match c with
-  | (ising, n, rows, h, k, lines, (lm, lM, lk)) =>
+  | (ising, n, rows, h, k, ts, raw, lines, (lm, lM, lk)) =>
       let p := problem_of ising n rows h k in
       chk 1 (list_eqb String.eqb (export_text p) lines) ++
-      match load_text (comment_char ising) ("# Generated 2000-01-01 00:00:00.000000"%string :: lines) with
-      | Ok (m, M, k') => chk 2 (Nat.eqb m lm && zrows_eqb (dense_of lm M) lM && (k' =? lk))
-      | Err _ => [2%nat]
-      end
+      chk 2 (loaded_eqb (load_text (comment_char ising) (String "#" ts :: lines)) lm lM lk) ++
+      chk 3 (String.eqb (export_bytes ts p) raw) ++
+      chk 4 (loaded_eqb (load_bytes (comment_char ising) raw) lm lM lk)
   end.
